@@ -558,7 +558,6 @@ F("slice:int-axis", "extraction", fd(a=S_23, ax=st.integers(0, 2), cut=st.intege
          view_ok=True))
 
 
-
 def _slice_named(p):
     """cut = Cartesian coordinate of the centre of voxel layer k along the named axis."""
     sp = p["a"]
@@ -901,8 +900,6 @@ def _equalize(p):
     vs = None if p["k"] == 0 else min(a.voxel_size) * p["k"] / 2.0
     kw = {} if p["interp"] is None else {"interpolation": p["interp"]}
     return Call({"image": a}, lambda: darsia.equalize_voxel_size(a, vs, **kw), REJ_CV)
-
-
 
 
 @st.composite
